@@ -129,6 +129,11 @@ def isLosOf (k : K) : Op K V → Bool
 
 def isOp (op : Op K V) : Op K V → Bool := fun op' => decide (op' = op)
 
+/-- the result of a Range (never the result of a map operation) -/
+def isPairs : Res K V → Bool
+  | .pairs _ => true
+  | _ => false
+
 /-- `some v`-result of a LoadAndDelete / Delete that removed `v` -/
 def delRes (d : Bool) (v : V) : Res K V := if d then .done else .val (some v)
 
@@ -208,7 +213,7 @@ def Promoting (sh : Shared K V) (t : Tid) : Prop := Own sh t ∧ sh.amended = tr
 instance (sh : Shared K V) (t : Tid) : Decidable (Promoting sh t) := by unfold Promoting; infer_instance
 
 def T (sh : Shared K V) (t : Tid) : Pc K V → APc K V → Prop
-  | .idle, a => IsIdle a
+  | .idle, a => IsIdle a ∧ ¬ Own sh t
   | .start .range, a => IsIdle a ∧ ¬ Own sh t
   | .start op, a => Pend a op ∧ ¬ Own sh t
   | .ret (.pairs _), a => IsIdle a ∧ ¬ Own sh t
@@ -242,7 +247,7 @@ def T (sh : Shared K V) (t : Tid) : Pc K V → APc K V → Prop
   | .losLock k v, a => Pend a (.loadOrStore k v) ∧ ¬ Own sh t
   | .losRead2 k v, a => Pend a (.loadOrStore k v) ∧ Own sh t
   | .losUnexp k v e, a => Pend a (.loadOrStore k v) ∧ Own sh t ∧ alookup k sh.readM = some e
-  | .losMiss k r, a => DoneWith a (isLosOf k) r ∧ Promoting sh t
+  | .losMiss k r, a => DoneWith a (isLosOf k) r ∧ isPairs r = false ∧ Promoting sh t
   -- LoadAndDelete / Delete
   | .ladRead1 d k, a => Pend a (ladOp d k) ∧ ¬ Own sh t
   | .ladLock d k, a => Pend a (ladOp d k) ∧ ¬ Own sh t
